@@ -67,6 +67,10 @@ fn record_bigint<const N: usize>(seed: u64, n: usize, out: &str) -> util::Report
     bigint::record::<N>(seed, n, &mut f)
 }
 
+fn record_polybig<F: poly::PF>(cfg: &str, seed: u64, n: usize, maxlog: u32, out: &str) -> util::Report {
+    let mut f = std::io::BufWriter::new(std::fs::File::create(out).expect("create trace file"));
+    poly::record_big::<F>(cfg, seed, n, maxlog, &mut f)
+}
 fn main() {
     // panics in code under test are data: keep the default hook quiet
     std::panic::set_hook(Box::new(|_| {}));
@@ -116,6 +120,19 @@ fn real_main(args: Vec<String>) {
                 "bls12_381_g1" => h2c::record_wb::<ark_test_curves::bls12_381::g1::Config>("bls12_381_g1", seed, n, &mut f),
                 "bls12_381_g2" => h2c::record_wb::<ark_test_curves::bls12_381::g2::Config>("bls12_381_g2", seed, n, &mut f),
                 other => panic!("unknown h2c configuration {other}") }
+        }
+        ("record", "polybig") => {
+            let seed: u64 = arg(&args, "--seed").and_then(|s| s.parse().ok()).unwrap_or(1);
+            let n: usize = arg(&args, "--n").and_then(|s| s.parse().ok()).unwrap_or(60);
+            let maxlog: u32 = arg(&args, "--maxlog").and_then(|s| s.parse().ok()).unwrap_or(11);
+            let out = arg(&args, "--out").expect("--out");
+            match cfg.as_str() {
+                "bls12_381_fr" => record_polybig::<ark_test_curves::bls12_381::Fr>(cfg.as_str(), seed, n, maxlog, out.as_str()),
+                "bn384_fq" => record_polybig::<ark_test_curves::bn384_small_two_adicity::Fq>(cfg.as_str(), seed, n, maxlog, out.as_str()),     // small subgroup 3^2: mixed radix
+                "mnt4_753_fr" => record_polybig::<ark_test_curves::mnt4_753::Fr>(cfg.as_str(), seed, n, maxlog, out.as_str()),
+                "secp256k1_fr" => record_polybig::<ark_test_curves::secp256k1::Fr>(cfg.as_str(), seed, n, maxlog, out.as_str()),                 // two-adicity 6, small subgroup 3
+                "fp128_fq" => record_polybig::<ark_test_curves::fp128::Fq>(cfg.as_str(), seed, n, maxlog, out.as_str()),
+                other => panic!("no full-size polynomial configuration {other}") }
         }
         ("record", "config") => {
             let seed: u64 = arg(&args, "--seed").and_then(|s| s.parse().ok()).unwrap_or(1);
